@@ -96,7 +96,10 @@ class SymBuilder:
                 else:
                     self.wf.append(ln >= 0)
                 inner = args[0]
-                return Lst(n=ln, at=lambda i, inner=inner: self._make(inner, name + "[]", idx + (i,)))
+                # an identity term of this list value (uninterpreted sort): lets a pure function under contract be a
+                # function of the list it is applied to (see flatten_terms)
+                lid = self._sym(opaque_sort("ListId"), name + ".id", idx)
+                return Lst(n=ln, at=lambda i, inner=inner: self._make(inner, name + "[]", idx + (i,)), tag=("sym", lid))
             if head == "Dict":
                 from .values import DctL, distinct_list
                 ln = self._sym(z3.IntSort(), name + ".len", idx)
@@ -242,6 +245,8 @@ def flatten_terms(v: V):
     if isinstance(v, Opt):
         inner = flatten_terms(v.val)
         return None if inner is None else [v.isnone] + inner
+    if isinstance(v, Lst) and not v.concrete and isinstance(v.tag, tuple) and v.tag[0] == "sym":
+        return [v.tag[1]]
     if isinstance(v, Tup) or (isinstance(v, Lst) and v.concrete):
         out = []
         for x in v.items:
